@@ -143,6 +143,40 @@ HasIdxSlice(e) ==
 FamStackWF(lz) == {g \in FamStack(0) : ~(g.r.body.es[1].k = "opt" /\ HasIdxSlice(g.r.body.es[2]))}
 FamStack1(lz) == {g \in {StkG(su, mid, pr) : su \in StkSetups, mid \in Stk1Mid(0), pr \in StkProbes} : ~(g.r.body.es[1].k = "opt" /\ HasIdxSlice(g.r.body.es[2]))}
 
+\* ---- family "trivfx": implicit rules with effects (C01, C04, C05, C06) ------------------------------
+\*   cmr    : COMMENT = _{ co ~ (!">" ~ ANY)* ~ ">" }   co = { "<" }   a silent comment whose opener is a rule: an
+\*            unterminated comment fails AFTER co produced a pair
+\*   wsr    : WHITESPACE = _{ v ~ ">" }   v = { " " }            the same for WHITESPACE
+\*   wspush : WHITESPACE = _{ " " ~ PUSH_LITERAL("a") }          trivia that changes the stack
+\*   wspushm: WHITESPACE = _{ PUSH(" ") }
+\*   cmpop  : COMMENT = _{ "<" ~ DROP }                          trivia that pops (fails on an empty stack)
+FxRules(cfg) ==
+  CASE cfg = "cmr"     -> [COMMENT |-> Rule("_", SeqE(<<Ref("co"), Star(SeqE(<<NotP(Str(<<gt>>)), AnyC>>)), Str(<<gt>>)>>)), co |-> Rule("", Str(<<lt>>))]
+    [] cfg = "wsr"     -> [WHITESPACE |-> Rule("_", SeqE(<<Ref("v"), Str(<<gt>>)>>)), v |-> Rule("", Str(<<sp>>))]
+    \* the same with a compound-atomic opener: its pair IS visible when the trivia matches, and must not be when it fails
+    [] cfg = "cmrc"    -> [COMMENT |-> Rule("_", SeqE(<<Ref("co"), Star(SeqE(<<NotP(Str(<<gt>>)), AnyC>>)), Str(<<gt>>)>>)), co |-> Rule("$", Str(<<lt>>))]
+    [] cfg = "wsrc"    -> [WHITESPACE |-> Rule("_", SeqE(<<Ref("v"), Str(<<gt>>)>>)), v |-> Rule("!", Str(<<sp>>))]
+    [] cfg = "wspush"  -> [WHITESPACE |-> Rule("_", SeqE(<<Str(<<sp>>), PushLit(<<a>>)>>))]
+    [] cfg = "wspushm" -> [WHITESPACE |-> Rule("_", PushE(Str(<<sp>>)))]
+    [] cfg = "cmpop"   -> [WHITESPACE |-> Rule("_", Str(<<sp>>)), COMMENT |-> Rule("_", SeqE(<<Str(<<lt>>), DropT>>))]
+FxG(body, cfg) == Merge([r |-> Rule("", body), s |-> Rule("", SeqE(<<Str(<<a>>), Ref("u")>>)),
+                         u |-> Rule("", SeqE(<<Str(<<a>>), Opt(Str(<<a>>))>>))], FxRules(cfg))
+FxProbes == {SeqE(<<PeekAllT, Eoi>>), SeqE(<<DropT, DropT>>), PopT, SeqE(<<DropT, Eoi>>), NotP(DropT), SeqE(<<PeekT, PeekT>>)}
+FxStackBodies(lz) == {SeqE(<<x, pr>>) : x \in TrT2(0), pr \in FxProbes}
+                     \cup {SeqE(<<PushLit(<<a>>), x, pr>>) : x \in TrT1 \cup Un(TrAtoms), pr \in FxProbes}
+FamTrivFx(lz) == {FxG(x, cfg) : x \in TrT2(0), cfg \in {"cmr", "wsr", "cmrc", "wsrc"}}
+                 \cup {FxG(x, cfg) : x \in FxStackBodies(0), cfg \in {"wspush", "wspushm", "cmpop"}}
+
+\* ---- family "ci": case-insensitive literals fold ASCII letters only (C03, C12, C02) -----------------
+\*   inputs over { k, K, KELVIN SIGN, s, LONG S, x }: ^"k" matches k and K and nothing else
+kk == 107   KK == 75   kelvin == 8490   ss == 115   SS == 83   longs == 383   xx == 120   eszett == 223   Eszett == 7838
+CiAtoms == {IStr(<<kk>>), IStr(<<KK>>), IStr(<<ss>>), IStr(<<kk, ss>>), IStr(<<ss, kk>>), IStr(<<eszett>>), IStr(<<kelvin>>), IStr(<<longs>>),
+            Str(<<kk>>), Str(<<ss>>), Str(<<xx>>), IStr(<<ss, ss>>), Rng(kk, ss)}
+CiBodies(lz) == CiAtoms \cup {AltE(<<x, y>>) : x \in CiAtoms, y \in CiAtoms} \cup {Plus(AltE(<<x, y>>)) : x \in CiAtoms, y \in CiAtoms}
+                \cup {SeqE(<<x, y, Eoi>>) : x \in CiAtoms, y \in CiAtoms} \cup {AltE(<<x, y, z>>) : x \in {IStr(<<kk, ss>>), IStr(<<ss>>), Str(<<kk>>)}, y \in CiAtoms, z \in {IStr(<<kk>>), Str(<<ss, ss>>), IStr(<<eszett>>)}}
+FamCi(lz) == {[r |-> Rule("", x)] : x \in CiBodies(0)}
+CiAlpha == {kk, KK, kelvin, ss, SS, longs, eszett, Eszett}
+
 \* ---- family "tags": C01 (tags are compared between interpreter and generated code) ----
 \*   r = { BODY }   s = { "a" ~ "b"? }   v = _{ #t3 = s }     + silent WHITESPACE
 TagAtoms == {Tag("t1", Ref("s")), Tag("t2", SeqE(<<Ref("s"), Str(<<b>>)>>)), Tag("t1", AltE(<<Ref("t"), Ref("s")>>)),
@@ -206,7 +240,10 @@ FamNl(lz) == {Merge([r |-> Rule(m, x), s |-> Rule("", SBody)], TrivRules(cfg)) :
 \* ---- family "names": rule names that coincide with names the runtime or the generated module uses -------------
 \*   r = { BODY }   n1 = { "a" }   n2 = { "b" ~ "a"? }   (+ silent WHITESPACE in half of them)
 NamePairs == {<<"trivia", "SKIP">>, <<"x1", "X1">>, <<"state", "pairs">>, <<"Rule", "parse">>, <<"re", "inner">>, <<"matched", "rule_frame">>,
-              <<"Pair", "main">>, <<"SKIP", "WS">>, <<"parse_trivia", "Parser">>, <<"children", "tag">>, <<"x1", "x_1">>}
+              <<"Pair", "main">>, <<"SKIP", "WS">>, <<"parse_trivia", "Parser">>, <<"children", "tag">>, <<"x1", "x_1">>,
+              \* names Python or Enum reserve, alone and in pairs that differ only in case
+              <<"_a_", "__a__">>, <<"true", "True">>, <<"none", "None">>, <<"mro", "MRO">>, <<"class", "Class">>, <<"name", "value">>,
+              <<"_", "__">>, <<"def", "lambda">>, <<"_a_", "_A__">>, <<"self", "cls">>, <<"str", "len">>, <<"skip_trivia", "Rule">>}
 NameBodies(n1, n2) == LET NA == {Ref(n1), Ref(n2), Str(<<a>>)} IN NA \cup Un(NA) \cup Bin(NA, NA) \cup {SeqE(<<x, y, z>>) : x \in NA, y \in NA, z \in NA}
 NameG(body, n1, n2, ws) == Merge((n1 :> Rule("", Str(<<a>>))) @@ (n2 :> Rule("", SeqE(<<Str(<<b>>), Opt(Str(<<a>>))>>))) @@ [r |-> Rule("", body)],
                                  IF ws THEN TrivRules("ws") ELSE <<>>)
@@ -247,6 +284,8 @@ Grammars ==
     [] Family = "stack1"  -> FamStack1(0)
     [] Family = "stackdeep" -> FamStackDeep(0)
     [] Family = "tags"    -> FamTags(0)
+    [] Family = "trivfx"  -> FamTrivFx(0)
+    [] Family = "ci"      -> FamCi(0)
 
 Alpha ==
   CASE Family \in {"core2", "core3", "core2nosoi", "core3nosoi"} -> CoreAlpha
@@ -258,6 +297,8 @@ Alpha ==
     [] Family = "opttrv" -> {a, b, sp}
     [] Family = "nl" -> {a, b, nl, sp}
     [] Family = "names" -> {a, b, sp}
+    [] Family = "trivfx" -> TrAlpha
+    [] Family = "ci" -> CiAlpha
 
 Inputs == Strings(Alpha, MaxLen)
 StartsOf(inp) == IF Starts = "all" THEN 0..Len(inp) ELSE {0}
